@@ -3,6 +3,7 @@ package idr
 import (
 	"encoding/json"
 	"io"
+	"strconv"
 
 	zz "github.com/jf-tech/omniparser/zzverif"
 )
@@ -69,12 +70,18 @@ func zzScalar() *zzJ {
 		zz.Assume(zz.ByteIn(v[0], "12"))
 		return &zzJ{kind: 's', s: string(v)}
 	case 1:
-		return &zzJ{kind: 'n', f: float64(1 + zz.NondetChoice("num", 2))}
+		return &zzJ{kind: 'n', f: zzNums[zz.NondetChoice("num", zz.Param("NUMS", 2))]}
 	case 2:
 		return &zzJ{kind: 'b', b: zz.NondetBool("bv")}
 	}
 	return &zzJ{kind: 'z'}
 }
+
+// zzNums: the number literals of the value family (floating point is concrete in the engine):
+// small, negative, fractional, beyond 2^53, exactly 2^63, beyond int64/uint64, huge, tiny.
+var zzNums = []float64{1, 2, -3, 0.5, 9007199254740993, 9223372036854775808, 1e25, 1.5e300, -1e-7, 0}
+
+func zzNumText(f float64) string { return strconv.FormatFloat(f, 'g', -1, 64) }
 
 var zzKeys = []string{"a", "b", "T", ""}
 
@@ -178,10 +185,7 @@ func (j *zzJ) text(out []byte) []byte {
 		out = append(out, j.s...)
 		return append(out, '"')
 	case 'n':
-		if j.f == 2 {
-			return append(out, '2')
-		}
-		return append(out, '1')
+		return append(out, zzNumText(j.f)...)
 	case 'b':
 		if j.b {
 			return append(out, "true"...)
@@ -302,11 +306,9 @@ func (j *zzJ) build(n *Node) {
 	case 's':
 		AddChild(n, CreateJSONNode(TextNode, j.s, JSONValueStr))
 	case 'n':
-		d := "1"
-		if j.f == 2 {
-			d = "2"
-		}
-		AddChild(n, CreateJSONNode(TextNode, d, JSONValueNum))
+		// the reference tree carries the number as encoding/json renders a float64 in a value
+		// position ('f' format, shortest digits)
+		AddChild(n, CreateJSONNode(TextNode, strconv.FormatFloat(j.f, 'f', -1, 64), JSONValueNum))
 	case 'b':
 		d := "false"
 		if j.b {
